@@ -5,11 +5,96 @@ import json, subprocess
 HOOK_COMMITS = ["00fc0b5"]
 
 CHECKS = {
+ "C01": dict(
+   technique="property-based testing against an independent f64 reference resampler with per-sample allowed intervals (reference model oracle)",
+   text="150k (quick) / 4M (thorough) generated resizes over 13 pixel types, all size and crop classes, 7 filters x 3 algorithms, 3 back-ends, adversarial contents; every destination sample must lie in the integer/real interval an ideal separable resampling with per-pass rounding and the documented coefficient quantisation can produce (either pass order). Exploration level: the input space is unbounded; the generator classes and the measured share of single-valued intervals (>90%) say how sharp the search is.",
+   note="Trusts the harness's transcription of the documented kernels / centre mapping, f64 arithmetic, and the stated allowances (one bit of fixed-point precision slack, 2^-23 relative per pass for f32, kernel-discontinuity ambiguity).",
+   ref="DESIGN.md §3 C01, §8"),
+ "C02": dict(
+   technique="differential property-based testing: SSE4.1 / AVX2 output against the portable back-end on generated inputs incl. custom kernels forcing other fixed-point precisions",
+   text="400k / 6M generated resize and MulDiv cases, each executed on None, Sse4_1 and Avx2 with the same input; integers byte-identical (16-bit alpha division +-1 on colour), floats within 2 ulp + 2^-36 of the largest magnitude. Labels report every residue class of row width, kernel length, row count and every precision reached.",
+   note="Only x86_64 back-ends can run here (no NEON/WASM). Custom kernels restricted to sum|w| < 4. The portable back-end itself is judged by C01/C06.",
+   ref="DESIGN.md §3 C02"),
+ "C03": dict(
+   technique="stateful property-based testing / fuzzing of call histories in crash-isolated worker processes on guard-paged buffers, on an optimised and a debug-assertion build, plus white-box window invariants through a read-only hook",
+   text="60k / 1.5M generated histories of up to 6 hostile safe-API calls (zero sizes, NaN/inf/negative/denormal/edge-flush crops, multiplicity 0..255, finite custom kernels with huge lobes, strided views, absurd constructor dimensions, arbitrary split arguments); the oracle is survival of the worker (signals/aborts become shrinkable failures), untouched guard pages and surroundings, and no panic inside the documented sum|w| < 4 domain; geometry-only cases check the window-inside-source and clip-table-range invariants up to sizes 2^20.",
+   note="An over-read that stays inside one allocation without crossing a guard page is visible only to the debug-assertion build. Custom kernel support <= 6.5 and <= 2^22 pixels per call (allocator limits are not the property). ASan libFuzzer target fuzz/api_safety complements it in the thorough tier when built.",
+   ref="DESIGN.md §3 C03"),
+ "C04": dict(
+   technique="exhaustive enumeration of boundary-valued rectangles on small images plus property-based testing of u32 / f64 / buffer-length tuples against an exact u128 / f64 inside-predicate (model oracle, iff)",
+   text="All rectangles with coordinates from an 11-value boundary set on every parent 0..4 x 0..4 through 7 constructor kinds (892k cases, every run) + 1M / 12M generated cases for rectangles, f64 crop boxes given to resize and the nine buffer constructors; accept <=> inside (both directions), accepted views verified pixel by pixel on identity-tagged parents; on optimised and overflow-checking builds.",
+   note="Don't-care classes stated in the rule (empty box on the far edge, zero-area crop given to resize, error variant where two apply).",
+   ref="DESIGN.md §3 C04"),
+ "C05": dict(
+   technique="metamorphic property-based testing with two complementary sentinels over operations x destination layouts x thread counts",
+   text="40k / 800k generated operations (resize, alpha multiply/divide, colour mapping, component conversion; two-image and in-place; deliberately failing calls and zero dimensions) into exact, owned, oversized, cropped and nested-cropped destinations, on the plain and the rayon build (1,2,5,16 threads): inside identical under both pre-fills, outside equal to the pre-fill, source unchanged, Err/zero => untouched.",
+   note="Sources are contiguous here (C13 varies source layouts).",
+   ref="DESIGN.md §3 C05"),
+ "C06": dict(
+   technique="exhaustive enumeration against exact integer arithmetic (all 8-bit pairs every run; all 2^32 16-bit pairs in thorough) plus property-based testing of float pairs",
+   text="Every (colour, alpha) pair of U8x2/U8x4 on 3 back-ends x multiply/divide x 56 row layouts x 4 entry points (1.2e9 component evaluations per quick run); 16-bit: boundary classes + 2^22 random pairs per type/back-end/op in quick, all 2^32 pairs in thorough; floats: 4096 bit-pattern pairs per generated tape. Oracle: exact u64 rounding / faithful-division predicate, alpha unchanged, entry points agree.",
+   note="Float pairs whose quotient or reciprocal overflows are counted as out of domain.",
+   ref="DESIGN.md §3 C06"),
+ "C07": dict(
+   technique="metamorphic property-based testing (twin images differing under alpha = 0, opaque twin, alpha plane alone)",
+   text="300k / 4M generated alpha-aware resampling calls on 6 alpha types; four relations: hidden colours irrelevant, alpha 0 => colour 0, opaque == use_alpha(false), alpha plane == one-channel resize.",
+   note="Calls that are plain copies belong to C12 and are not generated. Float colours finite.",
+   ref="DESIGN.md §3 C07"),
+ "C08": dict(
+   technique="differential property-based testing over thread-pool configurations (pool of n threads x3 against pool of 1) in the rayon build, optimised and overflow-checking",
+   text="5k / 100k generated operations on shapes from 1xN to sides of 65,535..131,072, pools of 2..32 threads, three repetitions each while 15 other workers load the machine; bytes must equal the 1-thread run and nothing may panic; split counters (hook) label cases where bands were really taken.",
+   note="Schedules are sampled, not enumerated (the harness does not own the OS scheduler); disjointness of bands is C14's exhaustive check.",
+   ref="DESIGN.md §3 C08"),
+ "C09": dict(
+   technique="model-based stateful property-based testing: histories on one Resizer, each step replayed on a fresh Resizer",
+   text="60k / 1M generated histories of up to 12 operations (resizes of mixed pixel sizes, sizes, algorithms, alpha flags, failing calls, reset, clone, switching, set_cpu_extensions); after every step result and bytes equal a fresh Resizer's; the whole history shrinks as one tape.",
+   note="Optimised and debug-assertion builds.",
+   ref="DESIGN.md §3 C09"),
+ "C10": dict(
+   technique="invariant property-based testing on constant images plus exact partition-of-unity arithmetic on the real fixed-point coefficients (read-only hook)",
+   text="400k / 6M cases: constant images of every 8-bit value / boundary 16-bit, I32, F32 values through every algorithm, filter, crop class, back-end and kernel lengths up to 2048 (8192 thorough) must stay constant; geometry-only cases prove -2^(p-1) <= V*(sum(q) - 2^p) < 2^(p-1) for every window the library actually produces.",
+   note="Kernel lengths bounded at 8192 taps as the statement allows.",
+   ref="DESIGN.md §3 C10"),
+ "C11": dict(
+   technique="property-based testing against the closed-form index law on identity-tagged images",
+   text="200k / 3M generated Nearest resizes (identity-tagged I32 and random contents of all types, every crop class incl. sub-pixel edge-flush, spare source rows, guard pages): every destination pixel is a bit-exact copy of the pixel at floor(origin + (i+0.5)*scale) clamped into the image; a noise band of 4(n+4)eps accepts either neighbour.",
+   note="Optimised and debug-assertion builds.",
+   ref="DESIGN.md §3 C11"),
+ "C12": dict(
+   technique="round-trip / metamorphic property-based testing (bit-exact copy; column independence; single-pass reference model)",
+   text="400k / 6M cases: same-size integer-crop calls must copy bit-exactly for every algorithm, type and alpha flag; SuperSampling with an intermediate of the destination size must equal that intermediate; one-equal-dimension calls must not mix columns (rows) and must match the 1-D reference.",
+   note="-",
+   ref="DESIGN.md §3 C12"),
+ "C13": dict(
+   technique="differential property-based testing over container / stride / offset layouts and entry points",
+   text="300k / 4M logical operations, each run contiguously through the dynamic API and through 3 other placements (owned, oversized, cropped, nested; typed entry for 6 pixel types; guard pages): identical destination bytes and Result.",
+   note="Typed placements cover a rotating subset of pixel types to bound monomorphisation; dynamic placements cover all 13.",
+   ref="DESIGN.md §3 C13"),
+ "C14": dict(
+   technique="exhaustive enumeration of all views up to 8x8 (20x20 thorough) x all (start,size,parts) incl. invalid ones x both axes x split-of-split, with an exactly-once increment oracle for mutable parts",
+   text="722k split requests every quick run over 9 view kinds: None <=> invalid; parts ordered, sizes floor/ceil, tags equal the band; through mutable parts every pixel is incremented exactly once and nothing else changes. 200k / 3M generated larger views.",
+   note="Which parts get the extra pixel is not constrained (the statement does not say).",
+   ref="DESIGN.md §3 C14"),
  "C15": dict(
    technique="property-based testing: generated (src,dst,centering) tuples biased to near-equal aspect ratios against four algebraic predicates + differential resize (fit vs explicit crop)",
-   text="Generated-input search (2M cases quick, 100M thorough) over sizes 1..65535 with adversarial near-equal-ratio classes; every case checked against exact predicates evaluated as the validator evaluates them; small cases also resized both ways. Exploration level: a pure-arithmetic function whose failure region (ratio comparisons near EPSILON) the generator classes aim at directly.",
-   note="Trusts f64 IEEE arithmetic of the host and the harness's transcription of the four predicates; NaN centering excluded (outside the stated domain).",
+   text="10M (quick) / 200M (thorough) cases over sizes 1..65535 with adversarial near-equal-ratio classes; every case checked against exact predicates evaluated as the validator evaluates them; small cases also resized both ways.",
+   note="NaN centering excluded (outside the stated domain).",
    ref="DESIGN.md §3 C15"),
+ "C16": dict(
+   technique="exhaustive enumeration of every mapping-table entry against the f64 transfer function plus property-based testing of images with alpha at every row position",
+   text="All 256/65,536 entries x 4 depth pairs x 2 directions x 2 mappers every run: |entry - ideal| <= 0.53, monotone, endpoints fixed, sRGB 8->16->8 identity; 100k / 2M generated images: colour == table, alpha == depth conversion, mismatches rejected and destination untouched.",
+   note="Tolerance 0.03 above half a unit because the library builds tables in f32.",
+   ref="DESIGN.md §3 C16"),
+ "C17": dict(
+   technique="exhaustive enumeration of integer sources and ordered sweeps of I32/F32 sources (all 2^32 bit patterns in thorough) against monotonicity / endpoint / saturation / round-trip invariants",
+   text="Every supported (source, destination) pair for 1..4 channels: all 8/16-bit values; boundaries + 2^20 ordered samples per 32-bit pair in quick, all 2^32 in numeric order in thorough; plus 100k / 1M generated images incl. size / channel-count mismatches that must be rejected with the destination untouched.",
+   note="'Maximum' for an I32 destination means the top bucket of the source's quantisation step.",
+   ref="DESIGN.md §3 C17"),
+ "C18": dict(
+   technique="invariant and metamorphic property-based testing (range preservation, order preservation on generated ordered pairs) plus coefficient-sign invariant through the hook",
+   text="300k / 4M cases with Box/Bilinear/Hamming/Gaussian: images confined to arbitrary bands must stay inside their per-channel range; raising source values never lowers a destination value; all quantised coefficients are non-negative.",
+   note="Integers exact, floats one ulp.",
+   ref="DESIGN.md §3 C18"),
 }
 
 PENDING = {}
